@@ -35,19 +35,20 @@ var behaviours = []string{"honest-with-key", "honest-with-key", "honest-without-
 var dirStates = []string{"pub", "pub", "bare", "both-same", "both-different", "none", "unparsable", "empty-file", "other-users-key", "right-key-other-name", "other-user-dotted-name", "other-user-dotted-name", "certificate", "pub-is-directory", "symlink-to-key", "dangling-symlink", "dangling-symlink-and-bare", "unusable-pub-shadows-bare", "unusable-pub-shadows-bare"}
 
 type runRec struct {
-	Behaviour string `json:"agent_behaviour"`
-	Dir       string `json:"key_directory_state"`
-	Policy    string `json:"namespace_policy"`
-	HardKey   bool   `json:"hard_key"`
-	IfVer     int    `json:"client_interface_version"`
-	KeyType   string `json:"user_key_type"`
-	LogName   string `json:"login_name"`
-	NilParam  bool   `json:"nil_param,omitempty"`
-	Result    string `json:"result"`
-	SignReqs  int    `json:"sign_requests_seen"`
-	AddFrames int    `json:"add_frames_seen"`
-	SignerN   int    `json:"signer_calls"`
-	AuthOK    bool   `json:"oracle_proof_of_possession"`
+	Behaviour       string `json:"agent_behaviour"`
+	Dir             string `json:"key_directory_state"`
+	Policy          string `json:"namespace_policy"`
+	HardKey         bool   `json:"hard_key"`
+	IfVer           int    `json:"client_interface_version"`
+	HardKeySpelling string `json:"hard_key_spelt_as,omitempty"`
+	KeyType         string `json:"user_key_type"`
+	LogName         string `json:"login_name"`
+	NilParam        bool   `json:"nil_param,omitempty"`
+	Result          string `json:"result"`
+	SignReqs        int    `json:"sign_requests_seen"`
+	AddFrames       int    `json:"add_frames_seen"`
+	SignerN         int    `json:"signer_calls"`
+	AuthOK          bool   `json:"oracle_proof_of_possession"`
 }
 
 type chalMon struct {
@@ -359,6 +360,15 @@ func sequence(r *ev.Run, c *ev.Case, seqNo int, mon *chalMon) {
 		}
 		rec.Policy, rec.HardKey = ps2.Policy, ps2.HardKey
 		param := gsrig.Param(ps2)
+		if ps2.HardKey && rng.Intn(2) == 0 {
+			// the same request as it arrives: a legacy line whose hardware-key flag is spelt in one of the ways that mean true
+			spell := []string{"true", "1", "t", "T", "TRUE", "True"}[rng.Intn(6)]
+			env := map[string]string{"SSH_ORIGINAL_COMMAND": fmt.Sprintf("IFVer=6 SSHClientVersion=8.1 req=%s@%s HardKey=%s", "u", "h", spell), "LOGNAME": logName, "SSH_CONNECTION": ps2.ClientIP + " 50000 10.0.0.1 22"}
+			if np, nerr := csr.NewReqParam(func(k string) string { return env[k] }, func() []string { return []string{"gensign", "-c", "/usr/bin/gensign " + ps2.Policy + " Regular"} }); nerr == nil && np != nil {
+				param = np
+				rec.HardKeySpelling = spell
+			}
+		}
 		// the interface version is a client claim like any other: whatever it says, a hardware-key request is refused
 		param.Attrs.IfVer = []int{7, 7, 6, 5, 0, -1, 1 << 30}[rng.Intn(7)]
 		rec.IfVer = param.Attrs.IfVer
